@@ -19,7 +19,7 @@ ANCHORS = ["decaylanguage.dec.dec:DecFileParser.build_decay_chains", "decaylangu
            "decaylanguage.dec.dec:DecFileParser._decay_mode_details"]
 WORKERS = {"quick": 4, "thorough": 16}
 WTESTS = {"groups": ['parser_chains'], "tests": ['tests/dec', 'tests/decay']}
-REQUIRED = {"cascade-deeper-than-100-levels": 1, "mother-made-by-CDecay-or-CopyDecay-used-as-daughter": 20, "depth>=3": 50, "repeated-daughter-in-line": 50, "empty-block-daughter": 20, "S-cuts-at-depth>=2": 50, "lines>=4": 50, "not-found-raises": 20,
+REQUIRED = {"asked-again-after:answer-edited": 20, "asked-again-after:modes-expanded": 10, "cascade-deeper-than-100-levels": 1, "mother-made-by-CDecay-or-CopyDecay-used-as-daughter": 20, "depth>=3": 50, "repeated-daughter-in-line": 50, "empty-block-daughter": 20, "S-cuts-at-depth>=2": 50, "lines>=4": 50, "not-found-raises": 20,
             "S-contains-direct-daughters": 50, "S-as-set": 20, "S-as-tuple": 20, "S-all-subsets": 10, "daughters>=3": 50, "alias-mother": 10,
             "corpus-mother": 20, "photos-line-in-chain": 20, "conjugated-table-in-set": 10, "S-contains-the-mother": 20, "zero-branching-fraction-line-with-decaying-daughter": 5, "earlier-instance-queried-again": 20, "reparsed-without-conjugates": 5, "C09.build_decay_chains.is_unfolding": 300}
 ASSUMPTIONS = ["table sets are acyclic (as quantified)", "the chain reports the model without the PHOTOS keyword; an absent parameter list '' == []"]
@@ -217,6 +217,23 @@ def check(ctx, p, T, m, S, stype, wit, workload, al=()):
     exp = chains.ref_unfold(T, m, set(S))
     if contracts._norm_chain(got) != contracts._norm_chain(exp):
         ctx.violate("chain:direct:not-the-unfolding", f"chain of {m} with S={sorted(S)}: {str(got)[:700]} expected {str(exp)[:700]}", w)
+    elif ctx.rng.random() < 0.2:
+        # the same question once more, after the caller edited the first answer (or had the modes expanded in between): the same unfolding again
+        how = "answer-edited" if (ctx.rng.random() < 0.6 or workload == "corpus") else "modes-expanded"
+        ctx.hit("asked-again-after:" + how)
+        w2 = {**w, "asked_again_after": how}
+        if how == "answer-edited":
+            snapshot.scramble(got)
+        else:
+            ctx.guard("expand-between", w2, p.expand_decay_modes, m)
+        ok, got2 = ctx.guard("chain", w2, (lambda: p.build_decay_chains(m, stable_particles=sarg)) if (S or stype != "list") else (lambda: p.build_decay_chains(m)))
+        contracts.drain()
+        try:
+            same = (not ok) or contracts._norm_chain(got2) == contracts._norm_chain(exp)
+        except Exception:  # noqa: BLE001  - the second answer is not even shaped like a chain
+            same = False
+        if not same:
+            ctx.violate("chain:second-answer-differs:after-" + how, f"chain of {m} with S={sorted(S)} asked again: {str(got2)[:700]} expected {str(exp)[:700]}", w2)
     _ = DecayNotFound
 
 
